@@ -235,9 +235,10 @@ class TransformationCorrection(darsia.BaseCorrection):
             # Find corresponding voxels in the original image by applying the inverse map.
             # This depends on how the transformation is set up. Follow a 3-step strategy:
 
-            # 1. Determine input of transformation - via voxel centers.
+            # 1. Determine input of the inverse transformation - via voxel centers. The
+            # inverse acts on points of the type of the destination points.
             transformation_input = voxels_dst.to_voxel_center().to(
-                self.transformation.input_dtype, self.coordinatesystem_dst
+                self.transformation.output_dtype, self.coordinatesystem_dst
             )
 
             # 2. Apply inverse transformation
